@@ -294,6 +294,11 @@ theorem gen_maybe_merge_error_not_dropped :
     BlugeGen.C03.maybeMergeHandling = ["if-err:return err", "if-done:return nil"] ∧
     BlugeGen.C03.maybeMergeTrueReturns = ["true, nil"] ∧ BlugeGen.C03.maybeMergeEquivErrReturned = true := by decide
 
+/-- `reopen` sets `sidFloor := disk.maxSeg + 2` from the listing of the segment files: when that listing fails OpenWriter
+returns the error (the `if err != nil { …; return }` directly follows the call, before `err` is assigned again) instead of
+going on with an empty listing -/
+theorem gen_open_list_segments_error_returned : BlugeGen.C03.listSegmentsErrReturned = true := by decide
+
 /-- `stepAck` / `observe .ack`: on success the parked callbacks are put in front of the grabbed ones, the parked list is
 reset, and all are invoked -/
 theorem gen_parked_first :
